@@ -175,4 +175,50 @@ class C11Three(Harness):
         env.observe("radius", left.radius)
 
 
-HARNESSES = [C11Merge, C11Unset, C11Three]
+class C11Four(Harness):
+    name = "C11Four"
+    prop = "C11"
+    bounds = ("four operands, dims 1-2 (thorough: 3): balanced grouping (a+b)+(c+d), left fold and in-place fold conserve "
+              "total volume and centre of mass; intermediate results stay intact")
+    stubs = ["numba decorators = identity"]
+    cost = 4
+
+    def configs(self, tier):
+        return [dict(dim=d, cls=c) for d in ((1, 2, 3) if tier == "thorough" else (1, 2))
+                for c in ("SphericalDroplet", "DiffuseDroplet")]
+
+    def sample(self, cfg, rng):
+        w = {}
+        for k in "abcd":
+            w[f"r{k}"] = F(rng.randint(1, 3000), 1000)
+            for i in range(cfg["dim"]):
+                w[f"{k}{i}"] = F(rng.randint(-5000, 5000), 1000)
+        return w
+
+    def body(self, env, cfg):
+        dim, diffuse = cfg["dim"], cfg["cls"] == "DiffuseDroplet"
+        cls = getattr(env.D, cfg["cls"])
+        P, R, Vs, ds = {}, {}, {}, {}
+        for k in "abcd":
+            P[k] = [env.real(f"{k}{i}") for i in range(dim)]
+            R[k] = env.real(f"r{k}", 0, strict_lo=True)
+            Vs[k] = V(env, R[k], dim)
+            ds[k] = mk(env, cls, P[k], R[k], env.const(F(1, 2)), diffuse)
+        tot = sum((Vs[k] for k in "bcd"), Vs["a"])
+        com = [sum((Vs[k] * P[k][i] for k in "bcd"), Vs["a"] * P["a"][i]) for i in range(dim)]
+        ab, cd = ds["a"].merge(ds["b"]), ds["c"].merge(ds["d"])
+        balanced = ab.merge(cd)
+        left = ds["a"].merge(ds["b"]).merge(ds["c"]).merge(ds["d"])
+        fold = ds["a"].copy()
+        for k in "bcd":
+            fold.merge(ds[k], inplace=True)
+        for tag, m in (("(a+b)+(c+d)", balanced), ("((a+b)+c)+d", left), ("in-place fold", fold)):
+            env.prove_eq(f"{tag}: total volume", V(env, env.num(m.radius), dim), tot)
+            for i in range(dim):
+                env.prove_eq(f"{tag}: centre of mass[{i}]", env.num(m.position[i]) * tot, com[i])
+        env.prove_eq("a+b intact after being merged with c+d", V(env, env.num(ab.radius), dim), Vs["a"] + Vs["b"])
+        env.prove_eq("c+d intact after being merged into a+b", V(env, env.num(cd.radius), dim), Vs["c"] + Vs["d"])
+        env.observe("radius", balanced.radius)
+
+
+HARNESSES = [C11Merge, C11Unset, C11Three, C11Four]
